@@ -211,6 +211,9 @@ func runFixtures(vdir string) (map[string]string, error) {
 					got = true
 				}
 			})
+		case strings.HasPrefix(rest, "LoopBuf"):
+			engine = "shared loop buffer"
+			got = len(sharedLoopBuffers(f)) > 0
 		case strings.HasPrefix(rest, "Park"):
 			engine = "parking operations"
 			eachInstr(f, func(in ssa.Instruction) {
